@@ -32,28 +32,28 @@ type c26Run struct {
 	Faults      []c26Fault `json:"faults"`
 	Restore     bool       `json:"restore_nodes"`
 
-	s         *sim.Sim
-	e         *env
-	mu        sync.Mutex
-	lastFault time.Duration
-	downUntil time.Duration
-	firstFaultEv uint64 // event sequence number of the first fault (0: none)
-	got       map[int]map[int32]bool // sub index -> values seen
+	s            *sim.Sim
+	e            *env
+	mu           sync.Mutex
+	lastFault    time.Duration
+	downUntil    time.Duration
+	firstFaultEv uint64                 // event sequence number of the first fault (0: none)
+	got          map[int]map[int32]bool // sub index -> values seen
 	// wire history
 	evs []c26Ev
 }
 
 type c26Ev struct {
-	at    uint64
-	kind  string // "resp" (delivered to client) or "req" (delivered to server) or "reqw" (written by client)
-	sub   uint32
-	seq   uint32
-	acks  [][2]uint32
-	bad   map[[2]uint32]bool
-	conn  int
-	hasNd bool
+	at     uint64
+	kind   string // "resp" (delivered to client) or "req" (delivered to server) or "reqw" (written by client)
+	sub    uint32
+	seq    uint32
+	acks   [][2]uint32
+	bad    map[[2]uint32]bool
+	conn   int
+	hasNd  bool
 	handle uint32
-	t time.Duration
+	t      time.Duration
 }
 
 func (r *c26Run) Sample() any { return r }
